@@ -187,3 +187,48 @@ fn cryptoutil_blake2_word_io() {
     }
     kani::cover!(true);
 }
+// big-endian word conversions at the lengths of the SHA-1 / SHA-2 call sites: read_u32v_be (16 words), read_u64v_be (16 words),
+// write_u32v_be (8 and 7 words), write_u64v_be (8, 6, 4, 3 words)
+// @harness props=C01,C20 kind=full tier=quick timeout=600
+#[kani::proof]
+#[kani::unwind(130)]
+fn cryptoutil_be_word_io() {
+    let src: [u8; 128] = kani::any();
+    let mut m = [0u32; 16];
+    read_u32v_be(&mut m, &src[..64]);
+    let mut i = 0;
+    while i < 16 {
+        let x = ((src[4 * i] as u32) << 24) | ((src[4 * i + 1] as u32) << 16) | ((src[4 * i + 2] as u32) << 8) | (src[4 * i + 3] as u32);
+        assert!(m[i] == x);
+        i += 1;
+    }
+    let mut n = [0u64; 16];
+    read_u64v_be(&mut n, &src);
+    let mut i = 0;
+    while i < 16 {
+        let mut x = 0u64;
+        let mut j = 0;
+        while j < 8 { x = (x << 8) | src[8 * i + j] as u64; j += 1; }
+        assert!(n[i] == x);
+        i += 1;
+    }
+    let w: [u32; 8] = kani::any();
+    let mut d = [0u8; 32];
+    write_u32v_be(&mut d, &w);
+    let mut i = 0;
+    while i < 32 { assert!(d[i] == (w[i / 4] >> (8 * (3 - i % 4))) as u8); i += 1; }
+    let mut e = [0u8; 28];
+    write_u32v_be(&mut e, &w[0..7]);
+    let mut i = 0;
+    while i < 28 { assert!(e[i] == (w[i / 4] >> (8 * (3 - i % 4))) as u8); i += 1; }
+    let v: [u64; 8] = kani::any();
+    let mut f = [0u8; 64];
+    write_u64v_be(&mut f, &v);
+    let mut i = 0;
+    while i < 64 { assert!(f[i] == (v[i / 8] >> (8 * (7 - i % 8))) as u8); i += 1; }
+    let mut g = [0u8; 24];
+    write_u64v_be(&mut g, &v[0..3]);
+    let mut i = 0;
+    while i < 24 { assert!(g[i] == (v[i / 8] >> (8 * (7 - i % 8))) as u8); i += 1; }
+    kani::cover!(true);
+}
